@@ -85,3 +85,39 @@ def verify_keys(report, keys, standin=None, procs=8):
     trusted = sorted(k for k, c in REG.items() if c.trusted)
     report.extra['trusted_contracts'] = trusted
     return results
+
+
+def _call_with_deadline(fn, args, seconds):
+    """Run fn(*args) in a forked child; a hang of a solver becomes 'undecided', never a hung check."""
+    import multiprocessing as mp
+    ctx = mp.get_context('fork')
+    parent, child = ctx.Pipe(False)
+
+    def target():
+        try:
+            child.send(('ok', fn(*args)))
+        except BaseException as e:  # noqa
+            import traceback
+            child.send(('err', traceback.format_exc()))
+    p = ctx.Process(target=target)
+    p.start()
+    if parent.poll(seconds):
+        kind, val = parent.recv()
+        p.join(5)
+        if kind == 'err':
+            raise RuntimeError(val)
+        return val
+    p.terminate()
+    p.join(5)
+    return None
+
+
+def add_obs(report, fn, *args, deadline=240, name=None):
+    from pv.core import Ob, UNDECIDED
+    obs = _call_with_deadline(fn, args, deadline)
+    if obs is None:
+        report.add(Ob('%s#deadline' % (name or fn.__name__), 'D', 'driver', UNDECIDED, deadline,
+                      'obligation group did not finish within %ds' % deadline))
+        return []
+    report.extend(obs)
+    return obs
